@@ -208,6 +208,23 @@ func fullSnapshotDiff(a, b *xmss.VerifState) string {
 	return ""
 }
 
+// message builds the message of a sign op in the shape the op asks for.
+func (x *xexec) message(op *Op) []byte {
+	switch op.MK {
+	case "nil":
+		return nil
+	case "cap":
+		b := make([]byte, op.ML, op.ML+96)
+		copy(b, core.MsgBytes(op.MS, op.ML))
+		return b
+	case "prevsig":
+		if n := len(x.heldSigs); n > 0 {
+			return x.heldSigs[n-1].sig
+		}
+	}
+	return core.MsgBytes(op.MS, op.ML)
+}
+
 // heldSig is a signature exactly as the key returned it (the slice itself, not
 // a copy) with its digest at that moment. A caller keeps signatures; if a later
 // operation of the key rewrites one in place it no longer verifies.
@@ -380,7 +397,7 @@ func RunXMSS(ep *Episode) *Result {
 		}
 		switch op.K {
 		case "sign":
-			x.doSign(core.MsgBytes(op.MS, op.ML))
+			x.doSign(x.message(op))
 		case "jump":
 			x.doJump(op.J)
 		case "walk":
